@@ -559,3 +559,116 @@ func ValString(v map[string]bool) string {
 	}
 	return s
 }
+
+// AliasTupleHelpers looks for calls of small module helpers of the form
+//
+//	func h(x T) (V, bool) { v := f(x); if <cond> { return zero, false }; return g(v), true }
+//
+// and makes the walker see through them: the atom `h(a)#1` is replaced by the
+// helper's own condition and the expression `h(a)#0` by what it returns when
+// that condition holds. Only helpers with exactly one branch atom whose bool
+// result is that atom (or its negation) are aliased; anything else is left
+// as an opaque call.
+func (w *Walker) AliasTupleHelpers() {
+	if w.Atom == nil {
+		w.Atom = CanonAtom
+	}
+	alias := map[string]string{}
+	Instrs(w.Fn, func(in ssa.Instruction) {
+		call, ok := in.(*ssa.Call)
+		if !ok {
+			return
+		}
+		f := call.Common().StaticCallee()
+		if f == nil || !InModule(f) || len(f.Blocks) == 0 || f.Signature.Results().Len() != 2 {
+			return
+		}
+		bi := -1
+		for i := 0; i < 2; i++ {
+			if b, ok := f.Signature.Results().At(i).Type().Underlying().(*types.Basic); ok && b.Kind() == types.Bool {
+				bi = i
+			}
+		}
+		if bi < 0 {
+			return
+		}
+		vi := 1 - bi
+		sw := &Walker{Fn: f}
+		atoms := sw.CondAtoms()
+		if len(atoms) != 1 {
+			return
+		}
+		subst := map[int]string{}
+		for i, a := range call.Common().Args {
+			subst[i] = Canon(a)
+		}
+		var whenTrue string
+		okShape := true
+		var atomMeansTrue bool
+		for _, av := range []bool{true, false} {
+			k := sw.Run(map[string]bool{atoms[0]: av})
+			if k.Undecided != "" || k.Ret == nil {
+				okShape = false
+				break
+			}
+			res := ReturnResults(k.Ret)
+			bv, isC := BoolConst(k.Resolve(res[bi]))
+			if !isC {
+				okShape = false
+				break
+			}
+			if bv {
+				atomMeansTrue = av
+				whenTrue = translateAtom(Canon(k.Resolve(res[vi])), subst)
+			}
+		}
+		if !okShape || whenTrue == "" {
+			return
+		}
+		self := Canon(call)
+		cond := translateAtom(atoms[0], subst)
+		if !atomMeansTrue {
+			cond = "!" + cond
+		}
+		alias[self+fmt.Sprintf("#%d", bi)] = cond
+		alias[self+fmt.Sprintf("#%d", vi)] = whenTrue
+	})
+	if len(alias) == 0 {
+		return
+	}
+	inner := w.Atom
+	w.Atom = func(cond ssa.Value) (string, bool) {
+		name, neg := inner(cond)
+		for from, to := range alias {
+			if name == from {
+				if len(to) > 0 && to[0] == '!' {
+					return to[1:], !neg
+				}
+				return to, neg
+			}
+		}
+		changed := false
+		for from, to := range alias {
+			if len(to) > 0 && to[0] == '!' {
+				continue
+			}
+			if i := indexOf(name, from); i >= 0 {
+				name = name[:i] + to + name[i+len(from):]
+				changed = true
+			}
+		}
+		if changed {
+			name = normCommutative(name)
+		}
+		return name, neg
+	}
+}
+
+func indexOf(s, sub string) int {
+	for i := 0; i+len(sub) <= len(s); i++ {
+		if s[i:i+len(sub)] == sub {
+			return i
+		}
+	}
+	return -1
+}
